@@ -13,7 +13,8 @@ func init() { gens["Keys"] = genKeys }
 
 // genKeys: the facts of internal/promapi the C14 model rests on.
 //   - per endpoint method of *Prometheus: the lock keys taken (flattened "+" chains or a call with its arguments),
-//     whether each lock has a matching deferred unlock, and the order lock < enqueue < receive;
+//     whether each lock has a matching deferred unlock, the condition (if / switch / select / inner loop) a lock call
+//     sits under inside its function ("" = taken on every path), and the order lock < enqueue < receive;
 //   - per query type: the arguments of hash(...) in CacheKey, the q.* fields they mention, the q.* fields the request
 //     built in Run mentions, and the CacheTTL expression;
 //   - processJob: the order of cache lookup, support check, request, error return and cache fill;
@@ -25,7 +26,7 @@ func genKeys(repo, out string) error {
 	}
 	var sb strings.Builder
 	sb.WriteString("namespace Pint.Gen.Keys\n\n")
-	sb.WriteString("structure LockKey where\n  kind : String\n  parts : List (Bool × String)\n  deferredUnlock : Bool\n  deriving Repr, DecidableEq\n\n")
+	sb.WriteString("structure LockKey where\n  kind : String\n  parts : List (Bool × String)\n  deferredUnlock : Bool\n  guard : String\n  deriving Repr, DecidableEq\n\n")
 	sb.WriteString("structure Endpoint where\n  method : String\n  queryType : String\n  locks : List LockKey\n  order : List String\n  deriving Repr, DecidableEq\n\n")
 	sb.WriteString("structure QueryType where\n  name : String\n  cacheArgs : List String\n  cacheFields : List String\n  requestFields : List String\n  ttl : String\n  deriving Repr, DecidableEq\n\n")
 
@@ -74,7 +75,30 @@ func genKeys(repo, out string) error {
 		var order []string
 		qt := ""
 		deferred := map[string]bool{}
+		guards := map[string]string{}
+		var stack []ast.Node
+		// the condition a call sits under, looking outwards up to the function (literal) that contains it
+		guardOf := func() string {
+			for i := len(stack) - 1; i >= 0; i-- {
+				switch g := stack[i].(type) {
+				case *ast.FuncLit, *ast.FuncDecl:
+					return ""
+				case *ast.IfStmt:
+					return "if " + p.src(g.Cond)
+				case *ast.SwitchStmt, *ast.TypeSwitchStmt, *ast.SelectStmt, *ast.CaseClause, *ast.CommClause:
+					return "switch/select"
+				case *ast.ForStmt, *ast.RangeStmt:
+					return "loop"
+				}
+			}
+			return ""
+		}
 		ast.Inspect(fd.Body, func(n ast.Node) bool {
+			if n == nil {
+				stack = stack[:len(stack)-1]
+				return true
+			}
+			stack = append(stack, n)
 			switch x := n.(type) {
 			case *ast.AssignStmt:
 				if len(x.Lhs) == 1 && len(x.Rhs) == 1 {
@@ -87,10 +111,14 @@ func genKeys(repo, out string) error {
 					deferred[p.src(x.Call.Args[0])] = true
 					order = append(order, "defer-unlock")
 				}
+				stack = stack[:len(stack)-1]
 				return false
 			case *ast.CallExpr:
 				if f := p.src(x.Fun); f == "prom.locker.lock" && len(x.Args) == 1 {
 					locks = append(locks, p.src(x.Args[0]))
+					stack = stack[:len(stack)-1]
+					guards[p.src(x.Args[0])] = guardOf()
+					stack = append(stack, n)
 					order = append(order, "lock")
 				}
 			case *ast.SendStmt:
@@ -152,7 +180,7 @@ func genKeys(repo, out string) error {
 				kind = "concat"
 				flatten(e)
 			}
-			lks = append(lks, fmt.Sprintf("{ kind := %s, parts := [%s], deferredUnlock := %s }", leanStr(kind), strings.Join(parts, ", "), leanBool(deferred[l])))
+			lks = append(lks, fmt.Sprintf("{ kind := %s, parts := [%s], deferredUnlock := %s, guard := %s }", leanStr(kind), strings.Join(parts, ", "), leanBool(deferred[l]), leanStr(guards[l])))
 		}
 		sep := ","
 		if mi == len(methods)-1 {
